@@ -19,6 +19,7 @@ theorem native_mk (as : List (String × Val)) (bs : List GBlock) :
 def encAttr (name : String) (ty : GTy) (v : GVal) : Option (List (String × Val)) :=
   match ty, v with
   | .ptr _, .ptr none => some []
+  | .ptr (.ptr _), .ptr (some (.ptr none)) => some []
   | .ptr t, .ptr (some x) => (toCty t x).map fun c => [(name, c)]
   | _, _ => (toCty ty v).map fun c => [(name, c)]
 
@@ -50,6 +51,7 @@ theorem encodeFields_attr (name : String) (o : Bool) (ty : GTy) (fs : List Field
       | some (as, bs) =>
         match ty, v with
         | .ptr _, .ptr none => some (as, bs)
+        | .ptr (.ptr _), .ptr (some (.ptr none)) => some (as, bs)
         | .ptr t, .ptr (some x) => (toCty t x).map fun c => ((name, c) :: as, bs)
         | _, _ => (toCty ty v).map fun c => ((name, c) :: as, bs) := rfl
 
@@ -80,6 +82,7 @@ theorem encodeFields_cons (f : Field) (fs : List Field) (v : FVal) (vs : List FV
         obtain ⟨as, bs⟩ := p
         simp only [encField, encAttr]
         split
+        · rfl
         · rfl
         · cases toCty _ _ <;> rfl
         · cases toCty _ _ <;> rfl
